@@ -50,7 +50,11 @@ def sh(cmd, cwd=None, timeout=3600):
 
 def build_all():
     """incremental build of the Coq development and of the extracted driver"""
-    rc, out = sh("timeout 3000 make -C %s all 2>&1" % VERIF, timeout=3600)
+    # one build at a time: checks may be started concurrently, and a build that rewrites .vo files or the extracted
+    # binary under another check's feet would make that check fail for no reason of the code under test
+    os.makedirs(os.path.join(VERIF, "work"), exist_ok=True)
+    lock = os.path.join(VERIF, "work", ".build.lock")
+    rc, out = sh("flock %s timeout 3000 make -C %s all 2>&1" % (lock, VERIF), timeout=7200)
     return rc == 0, out
 
 
